@@ -83,133 +83,7 @@ func runC10(c *Ctx) {
 	fns := c.pkgFuncs(pkg)
 	live := c.liveFuncs()
 
-	// ---- C10.a who may call inc / initialize / finalize / dec ----
-	c.clause("C10.a", "T3+T4", "refCounter.inc outside initialize only in Get/Add of LRUCache/TTLCache, under the cache mutex; every handed-out release closure is preceded by exactly one inc", 6)
-	incSites := c.callSitesOf(idIs(pkg+".(*refCounter).inc"), live)
-	cacheEntry := map[string]bool{
-		pkg + ".(*LRUCache).Get": true, pkg + ".(*LRUCache).Add": true,
-		pkg + ".(*TTLCache).Get": true, pkg + ".(*TTLCache).Add": true,
-	}
-	for _, s := range incSites {
-		k := c.fnKey(s.caller)
-		key := k + ":inc"
-		switch {
-		case cacheEntry[k]:
-			held := c.locksAt(s.instr)
-			if held["c.mu"] == lockW {
-				c.ok(key, s.instr.Pos(), "inc under c.mu in cache entry point")
-			} else {
-				c.bad(key, s.instr.Pos(), "refCounter.inc called without c.mu held: a concurrent eviction may finalize the value between lookup and inc")
-			}
-		case s.caller.Parent() != nil && c.fnKey(s.caller.Parent()) == pkg+".(*refCounter).initialize":
-			if oc := onceDo(s.caller); oc != nil {
-				if fa, ok := oc.Call.Args[0].(*ssa.FieldAddr); ok && fieldName(fa) == "initializeOnce" {
-					c.ok(key, s.instr.Pos(), "membership inc inside initializeOnce.Do")
-					continue
-				}
-			}
-			c.bad(key, s.instr.Pos(), "membership inc is not wrapped by initializeOnce.Do")
-		default:
-			c.bad(key, s.instr.Pos(), "refCounter.inc called outside Get/Add/initialize: refcount no longer equals membership+holders")
-		}
-	}
-	// every cache entry point: each return that hands out a non-nil done passed exactly one inc
-	for _, name := range sortedKeys(cacheEntry) {
-		f := c.fn(pkg, name[len(pkg)+1:])
-		if f == nil {
-			c.unk("anchor:"+name, token.NoPos, "cache entry point missing")
-			continue
-		}
-		incs := callsIn(f, idIs(pkg+".(*refCounter).inc"))
-		dofs := callsIn(f, func(id string, _ ssa.CallInstruction) bool {
-			return id == pkg+".(*LRUCache).decreaseOnceFunc" || id == pkg+".(*TTLCache).decreaseOnceFunc"
-		})
-		for _, d := range dofs {
-			key := name + ":release-closure"
-			okp, path := mustPass(f, d, newCuts().addCalls(incs))
-			if !okp {
-				c.bad(key, d.Pos(), "a release closure is created on a path without inc: "+c.pathStr(f, path))
-				continue
-			}
-			// the inc'd counter is the one handed to decreaseOnceFunc and whose value is returned
-			same := false
-			for _, in := range incs {
-				if dominatesInstr(in, d) && addrKey(in.Common().Args[0]) != "" &&
-					(addrKey(in.Common().Args[0]) == addrKey(d.Common().Args[1]) || promoted(in.Common().Args[0], d.Common().Args[1])) {
-					// exactly one inc: no other inc between
-					other := false
-					for _, in2 := range incs {
-						if in2 != in {
-							if got, _ := reach(f, in, isInstr(in2), nil); got != nil {
-								if g2, _ := reach(f, in2, isInstr(d), nil); g2 != nil {
-									other = true
-								}
-							}
-							if got, _ := reach(f, in2, isInstr(in), nil); got != nil {
-								if g2, _ := reach(f, in, isInstr(d), nil); g2 != nil {
-									other = true
-								}
-							}
-						}
-					}
-					if !other {
-						same = true
-					}
-				}
-			}
-			if same {
-				c.ok(key, d.Pos(), "exactly one inc on the counter passed to the release closure")
-			} else {
-				c.bad(key, d.Pos(), "release closure's counter is not incremented exactly once before hand-out")
-			}
-		}
-		// every inc leads to a release closure on all paths to return
-		for _, in := range incs {
-			got, path := reach(f, in, isReturn, newCuts().addCalls(dofs))
-			if got != nil {
-				c.bad(name+":inc-without-release", in.Pos(), "inc reaches a return without creating a release closure: "+c.pathStr(f, path))
-			} else {
-				c.ok(name+":inc-without-release", in.Pos(), "every path from inc creates the release closure")
-			}
-		}
-		// returns: non-nil done ⇔ comes from decreaseOnceFunc
-		for _, r := range realReturns(f) {
-			if len(r.Results) != 3 {
-				continue
-			}
-			key := name + ":return"
-			dv, vv := retVals(r, 1), retVals(r, 0)
-			if len(dv) != 1 || len(vv) != 1 {
-				c.unk(key, r.Pos(), "cannot resolve returned values")
-				continue
-			}
-			if isNilConst(dv[0]) {
-				if !isNilConst(vv[0]) {
-					c.bad(key, r.Pos(), "value returned without a release closure")
-				} else {
-					c.okTrivial(key, r.Pos(), "miss return")
-				}
-				continue
-			}
-			var fromD ssa.CallInstruction
-			for _, d := range dofs {
-				if dv[0] == d.Value() {
-					fromD = d
-				}
-			}
-			if fromD == nil {
-				c.bad(key, r.Pos(), "done result is not a fresh release closure")
-				continue
-			}
-			// returned value is field v of the counter handed to the release closure
-			fa, isV := isFieldLoad(vv[0], rcT, "v")
-			if isV && fa != nil && (addrKey(fa.X) == addrKey(fromD.Common().Args[1]) || promoted(fa.X, fromD.Common().Args[1])) {
-				c.ok(key, r.Pos(), "returns rc.v together with the release closure over the same rc")
-			} else {
-				c.bad(key, r.Pos(), "returned value is not the value of the counter the release closure decrements")
-			}
-		}
-	}
+	clauseIncDiscipline(c, "C10.a")
 
 	c.clause("C10.a2", "T3", "initialize only in Add (before the client inc); finalize only in eviction paths; dec only inside sync.Once.Do literals; onEvicted only in dec at count<=0", 5)
 	for _, s := range c.callSitesOf(idIs(pkg+".(*refCounter).initialize"), live) {
@@ -611,4 +485,140 @@ func promoted(a, b ssa.Value) bool {
 func promoted2(a ssa.Value, key string) bool {
 	ka := addrKey(a)
 	return ka != "" && (ka == key+".refCounter" || key == ka+".refCounter")
+}
+
+// clauseIncDiscipline: a reference is taken only inside the cache entry points and under the cache mutex (shared by C10
+// and C11: a hit must not hand out a value whose eviction can run between lookup and reference).
+func clauseIncDiscipline(c *Ctx, id string) {
+	const pkg = "util/cacheutil"
+	const rcT = pkg + ".refCounter"
+	live := c.liveFuncs()
+	// ---- C10.a who may call inc / initialize / finalize / dec ----
+	c.clause(id, "T3+T4", "refCounter.inc outside initialize only in Get/Add of LRUCache/TTLCache, under the cache mutex; every handed-out release closure is preceded by exactly one inc", 6)
+	incSites := c.callSitesOf(idIs(pkg+".(*refCounter).inc"), live)
+	cacheEntry := map[string]bool{
+		pkg + ".(*LRUCache).Get": true, pkg + ".(*LRUCache).Add": true,
+		pkg + ".(*TTLCache).Get": true, pkg + ".(*TTLCache).Add": true,
+	}
+	for _, s := range incSites {
+		k := c.fnKey(s.caller)
+		key := k + ":inc"
+		switch {
+		case cacheEntry[k]:
+			held := c.locksAt(s.instr)
+			if held["c.mu"] == lockW {
+				c.ok(key, s.instr.Pos(), "inc under c.mu in cache entry point")
+			} else {
+				c.bad(key, s.instr.Pos(), "refCounter.inc called without c.mu held: a concurrent eviction may finalize the value between lookup and inc")
+			}
+		case s.caller.Parent() != nil && c.fnKey(s.caller.Parent()) == pkg+".(*refCounter).initialize":
+			if oc := onceDo(s.caller); oc != nil {
+				if fa, ok := oc.Call.Args[0].(*ssa.FieldAddr); ok && fieldName(fa) == "initializeOnce" {
+					c.ok(key, s.instr.Pos(), "membership inc inside initializeOnce.Do")
+					continue
+				}
+			}
+			c.bad(key, s.instr.Pos(), "membership inc is not wrapped by initializeOnce.Do")
+		default:
+			c.bad(key, s.instr.Pos(), "refCounter.inc called outside Get/Add/initialize: refcount no longer equals membership+holders")
+		}
+	}
+	// every cache entry point: each return that hands out a non-nil done passed exactly one inc
+	for _, name := range sortedKeys(cacheEntry) {
+		f := c.fn(pkg, name[len(pkg)+1:])
+		if f == nil {
+			c.unk("anchor:"+name, token.NoPos, "cache entry point missing")
+			continue
+		}
+		incs := callsIn(f, idIs(pkg+".(*refCounter).inc"))
+		dofs := callsIn(f, func(id string, _ ssa.CallInstruction) bool {
+			return id == pkg+".(*LRUCache).decreaseOnceFunc" || id == pkg+".(*TTLCache).decreaseOnceFunc"
+		})
+		for _, d := range dofs {
+			key := name + ":release-closure"
+			okp, path := mustPass(f, d, newCuts().addCalls(incs))
+			if !okp {
+				c.bad(key, d.Pos(), "a release closure is created on a path without inc: "+c.pathStr(f, path))
+				continue
+			}
+			// the inc'd counter is the one handed to decreaseOnceFunc and whose value is returned
+			same := false
+			for _, in := range incs {
+				if dominatesInstr(in, d) && addrKey(in.Common().Args[0]) != "" &&
+					(addrKey(in.Common().Args[0]) == addrKey(d.Common().Args[1]) || promoted(in.Common().Args[0], d.Common().Args[1])) {
+					// exactly one inc: no other inc between
+					other := false
+					for _, in2 := range incs {
+						if in2 != in {
+							if got, _ := reach(f, in, isInstr(in2), nil); got != nil {
+								if g2, _ := reach(f, in2, isInstr(d), nil); g2 != nil {
+									other = true
+								}
+							}
+							if got, _ := reach(f, in2, isInstr(in), nil); got != nil {
+								if g2, _ := reach(f, in, isInstr(d), nil); g2 != nil {
+									other = true
+								}
+							}
+						}
+					}
+					if !other {
+						same = true
+					}
+				}
+			}
+			if same {
+				c.ok(key, d.Pos(), "exactly one inc on the counter passed to the release closure")
+			} else {
+				c.bad(key, d.Pos(), "release closure's counter is not incremented exactly once before hand-out")
+			}
+		}
+		// every inc leads to a release closure on all paths to return
+		for _, in := range incs {
+			got, path := reach(f, in, isReturn, newCuts().addCalls(dofs))
+			if got != nil {
+				c.bad(name+":inc-without-release", in.Pos(), "inc reaches a return without creating a release closure: "+c.pathStr(f, path))
+			} else {
+				c.ok(name+":inc-without-release", in.Pos(), "every path from inc creates the release closure")
+			}
+		}
+		// returns: non-nil done ⇔ comes from decreaseOnceFunc
+		for _, r := range realReturns(f) {
+			if len(r.Results) != 3 {
+				continue
+			}
+			key := name + ":return"
+			dv, vv := retVals(r, 1), retVals(r, 0)
+			if len(dv) != 1 || len(vv) != 1 {
+				c.unk(key, r.Pos(), "cannot resolve returned values")
+				continue
+			}
+			if isNilConst(dv[0]) {
+				if !isNilConst(vv[0]) {
+					c.bad(key, r.Pos(), "value returned without a release closure")
+				} else {
+					c.okTrivial(key, r.Pos(), "miss return")
+				}
+				continue
+			}
+			var fromD ssa.CallInstruction
+			for _, d := range dofs {
+				if dv[0] == d.Value() {
+					fromD = d
+				}
+			}
+			if fromD == nil {
+				c.bad(key, r.Pos(), "done result is not a fresh release closure")
+				continue
+			}
+			// returned value is field v of the counter handed to the release closure
+			fa, isV := isFieldLoad(vv[0], rcT, "v")
+			if isV && fa != nil && (addrKey(fa.X) == addrKey(fromD.Common().Args[1]) || promoted(fa.X, fromD.Common().Args[1])) {
+				c.ok(key, r.Pos(), "returns rc.v together with the release closure over the same rc")
+			} else {
+				c.bad(key, r.Pos(), "returned value is not the value of the counter the release closure decrements")
+			}
+		}
+	}
+
 }
